@@ -42,6 +42,9 @@ type xCase struct {
 	// program in another spelling (long type names, attributes before or behind the name, key
 	// lists expanded or folded, optional separators, ...) and layout, which means the same (C08)
 	Text string `json:"text,omitempty"`
+	// WideSum: in the registered pass the services of 64-bit checksum fields return values that
+	// need all 64 bits (not for Java, whose service interface returns an Integer)
+	WideSum bool `json:"wide_sum,omitempty"`
 }
 
 // langRun is what one language did with a case.
@@ -129,7 +132,7 @@ func runCase(k xCase, keep bool) *xRun {
 		for mode := 0; mode < modes; mode++ {
 			reg := mode == 1
 			algs := xlang.Algs(p)
-			b, lay := ref.Encode(p, pk, m.Val, func(a string) bool { _, ok := algs[a]; return reg && ok })
+			b, lay := ref.EncodeWide(p, pk, m.Val, func(a string) bool { _, ok := algs[a]; return reg && ok }, k.WideSum)
 			rm.Bytes[mode], rm.Layout[mode] = b, lay
 			rm.Canon[mode] = ref.Canon(p, pk, m.Val, lay).Tokens(p, pk)
 		}
@@ -170,7 +173,11 @@ func runCase(k xCase, keep bool) *xRun {
 			if be == nil {
 				var cmds []xlang.Cmd
 				for mode := 0; mode < modes; mode++ {
-					cmds = append(cmds, xlang.Cmd{Op: "CKS", Arg: fmt.Sprint(mode)})
+					cks := fmt.Sprint(mode)
+					if mode == 1 && k.WideSum {
+						cks = "2"
+					}
+					cmds = append(cmds, xlang.Cmd{Op: "CKS", Arg: cks})
 					for i, m := range k.Msgs {
 						pk := p.PacketByName(m.Packet)
 						cmds = append(cmds, xlang.Cmd{Op: "ENC", Packet: m.Packet, Arg: m.Val.Tokens(p, pk)})
